@@ -177,59 +177,75 @@ Section Inv.
         split; [reflexivity|]. intros _. rewrite Hr. exact Hlen.
   Qed.
 
+  (** unread characters, counting the pending one *)
+  Definition smeasure (s : sstate) : nat := (length (s_rest s) + (if (s_ch s =? EOF)%Z then 0 else 1))%nat.
+
   (** Peek *)
   Definition peek_post (s : sstate) (r : Z * sstate) : Prop :=
-    let '(c, s') := r in ext s s' /\ chk c s' /\ s_ch s' = c /\ (s_ch s = EOF -> c = EOF).
+    let '(c, s') := r in ext s s' /\ chk c s' /\ s_ch s' = c /\ (s_ch s = EOF -> c = EOF)
+                         /\ (smeasure s' <= smeasure s)%nat.
 
   Lemma sc_peek_spec : forall s, sinv s -> sres_ok (sc_peek s) (peek_post s).
   Proof.
     intros s (Hc & Hch). unfold sc_peek. destruct (s_ch s =? NOCHAR) eqn:E.
-    - eapply sres_ok_bind. { apply sc_next_spec; assumption. }
-      intros [c s1] (He1 & Hk1 & _ & _ & _). destruct (c =? 65279).
+    - apply Z.eqb_eq in E.
+      assert (Hm : forall c s1, (length (s_rest s1) <= length (s_rest s))%nat ->
+                                (c <> EOF -> (length (s_rest s1) < length (s_rest s))%nat) ->
+                                (smeasure (set_ch s1 c) <= smeasure s)%nat).
+      { intros c s1 Hle Hlt. unfold smeasure. cbn [s_rest s_ch set_ch]. rewrite E.
+        change (NOCHAR =? EOF) with false. destruct (c =? EOF) eqn:Ec; [lia|].
+        apply Z.eqb_neq in Ec. specialize (Hlt Ec). lia. }
+      eapply sres_ok_bind. { apply sc_next_spec; assumption. }
+      intros [c s1] (He1 & Hk1 & _ & _ & Hlen1). destruct (c =? 65279).
       + eapply sres_ok_bind. { apply sc_next_spec. apply He1. }
-        intros [c2 s2] (He2 & Hk2 & _ & _ & _). cbn [sres_ok peek_post]. apply Z.eqb_eq in E.
-        split; [|split; [|split]].
+        intros [c2 s2] (He2 & Hk2 & _ & _ & Hlen2). cbn [sres_ok peek_post].
+        split; [|split; [|split; [|split]]].
         * apply (ext_trans s s1); [exact He1 | exact He2].
         * exact Hk2.
         * reflexivity.
         * intros HE. rewrite HE in E. discriminate.
-      + cbn [sres_ok peek_post]. apply Z.eqb_eq in E. split; [exact He1|]. split; [exact Hk1|]. split; [reflexivity|].
-        intros HE. rewrite HE in E. discriminate.
-    - cbn [sres_ok peek_post]. apply Z.eqb_neq in E. split; [|split; [|split]].
+        * destruct He1 as (_ & _ & _ & Hl1). destruct He2 as (_ & _ & _ & Hl2). cbn [s_rest set_ch] in *.
+          apply Hm; [lia|]. intros Hc2. specialize (Hlen2 Hc2). cbn [s_rest set_ch] in *. lia.
+      + cbn [sres_ok peek_post]. split; [exact He1|]. split; [exact Hk1|]. split; [reflexivity|].
+        split. { intros HE. rewrite HE in E. discriminate. }
+        apply Hm; [apply He1 | exact Hlen1].
+    - cbn [sres_ok peek_post]. apply Z.eqb_neq in E. split; [|split; [|split; [|split]]].
       + apply ext_refl; assumption.
       + destruct Hch; [contradiction | assumption].
       + reflexivity.
       + auto.
+      + lia.
   Qed.
 
   (** Next: returns the current character and reads one more; strictly advances unless at EOF *)
   Definition Next_post (s : sstate) (r : Z * sstate) : Prop :=
     let '(c, s') := r in
     ext s s' /\ chk (s_ch s') s' /\
-    (c <> EOF -> tokoff s < tokoff s' /\
-                 (length (s_rest s') + (if (s_ch s' =? EOF)%Z then 0 else 1) <
-                  length (s_rest s) + (if (s_ch s =? EOF)%Z then 0 else 1))%nat).
+    (smeasure s' <= smeasure s)%nat /\
+    (c <> EOF -> tokoff s < tokoff s' /\ (smeasure s' < smeasure s)%nat).
 
   Lemma sc_Next_spec : forall s, sinv s -> sres_ok (sc_Next s) (Next_post s).
   Proof.
     intros s Hs. unfold sc_Next. eapply sres_ok_bind. { apply sc_peek_spec; assumption. }
-    intros [ch s1] (He1 & Hk1 & Hch1 & Heof). destruct (ch =? EOF) eqn:E.
+    intros [ch s1] (He1 & Hk1 & Hch1 & Heof & Hm1). destruct (ch =? EOF) eqn:E.
     - cbn [sres_ok Next_post]. apply Z.eqb_eq in E. split; [exact He1|]. split.
       + rewrite Hch1. assumption.
-      + intros HH. exfalso. apply HH. exact E.
+      + split; [exact Hm1|]. intros HH. exfalso. apply HH. exact E.
     - apply Z.eqb_neq in E. eapply sres_ok_bind. { apply sc_next_spec. apply He1. }
       intros [c2 s2] (He2 & Hk2 & Hto & _ & Hlen). cbn [sres_ok Next_post s_ch set_ch].
-      split; [|split; [|intros _; split]].
+      assert (Hlt : (smeasure (set_ch s2 c2) < smeasure s1)%nat).
+      { unfold smeasure. cbn [s_rest s_ch set_ch]. rewrite Hch1.
+        destruct (ch =? EOF) eqn:E1; [apply Z.eqb_eq in E1; contradiction|].
+        destruct (c2 =? EOF) eqn:E2.
+        - destruct He2 as (_ & _ & _ & Hl2). lia.
+        - apply Z.eqb_neq in E2. specialize (Hlen E2). lia. }
+      split; [|split; [|split; [|intros _; split]]].
       + apply (ext_trans s s1); eassumption.
       + assumption.
+      + lia.
       + destruct Hk1 as [[? _]|(_ & _ & Hl)]; [contradiction|].
         destruct He1 as (_ & ? & _). change (tokoff (set_ch s2 c2)) with (tokoff s2). lia.
-      + destruct He1 as (_ & _ & _ & Hl1).
-        assert (Hs0 : (s_ch s =? EOF) = false).
-        { destruct (s_ch s =? EOF) eqn:E0; [|reflexivity]. apply Z.eqb_eq in E0. apply Heof in E0. contradiction. }
-        rewrite Hs0. change (s_rest (set_ch s2 c2)) with (s_rest s2). destruct (c2 =? EOF) eqn:E2.
-        * destruct He2 as (_ & _ & _ & Hl2). lia.
-        * apply Z.eqb_neq in E2. specialize (Hlen E2). lia.
+      + lia.
   Qed.
 
   (** ------------------------------------------------------------ loops *)
@@ -406,5 +422,93 @@ Section Inv.
     match goal with |- sres_ok (if ?c then _ else _) _ => destruct c end.
     { cbn [sres_ok]. apply okpos_sc_pos. apply He3. }
     cbn [sres_ok number_post]. unfold St. auto.
+  Qed.
+
+  (** ------------------------------------------------------------ Scan *)
+
+  Definition tok_ok (t : token) : Prop := okpos (t_pos t) /\ (t_typ t <> EOF -> t_txt t <> []).
+
+  Definition scan_post (s : sstate) (r : token * sstate) : Prop :=
+    let '(t, s') := r in
+    sinv s' /\ s_ws s' = s_ws s /\ tok_ok t
+    /\ tokoff s <= p_offset (t_pos t) <= tokoff s'
+    /\ (t_typ t <> EOF -> p_offset (t_pos t) < tokoff s')
+    /\ (length (s_rest s') <= length (s_rest s))%nat.
+
+  Lemma firstn_nonempty : forall (a b : bytes) d, 1 <= blen a -> 1 <= d -> firstn (Z.to_nat d) (a ++ b) <> [].
+  Proof.
+    intros a b d Ha Hd. destruct a as [|x a']. { rewrite blen_nil in Ha. lia. }
+    destruct (Z.to_nat d) eqn:E; [lia|]. cbn. discriminate.
+  Qed.
+
+  Lemma is_decimal_eof : is_decimal EOF = false.
+  Proof. reflexivity. Qed.
+
+  Lemma sc_scan_spec : forall s, sinv s -> (length (s_rest s) < F)%nat ->
+    sres_ok (sc_scan il id F s) (scan_post s).
+  Proof.
+    intros s Hs Hfuel. unfold sc_scan.
+    eapply sres_ok_bind; [apply sc_peek_spec; assumption|]. intros [ch1 s1] (He1 & Hk1 & _ & _ & _).
+    eapply sres_ok_bind.
+    { apply skip_ws_spec; [apply He1 | assumption | eapply fuel_ext; eassumption]. }
+    intros [ch2 s2] (He2 & Hk2). cbv beta iota zeta.
+    assert (He02 : ext s s2) by (apply (ext_trans s s1); assumption).
+    assert (Hf2 : (length (s_rest s2) < F)%nat) by (destruct He02 as (_ & _ & _ & ?); lia).
+    assert (Hc2 : core s2) by apply He2.
+    eapply sres_ok_bind with
+      (P := fun r => let '(tok, ch', s') := r in
+                     ext s2 s' /\ chk ch' s' /\ ((tok <> EOF /\ strict s2 s' /\ ch2 <> EOF) \/ (tok = EOF /\ s' = s2))).
+    { destruct (is_ident_rune il id ch2 false) eqn:Eid.
+      { assert (ch2 <> EOF) by (intros ->; rewrite ident_rune_eof in Eid; discriminate).
+        unfold scan_identifier.
+        eapply sres_ok_bind with (P := fun r => St s2 (fst r) (snd r)).
+        { eapply sres_ok_bind; [apply (next_St s2 s2); [apply ext_refl; assumption | auto]|].
+          intros [c3 s3] (He3 & Hk3 & Hs3). cbn [fst snd] in *.
+          eapply sres_ok_weaken.
+          - apply scan_ident_loop_spec; [apply He3 | assumption | eapply fuel_ext; eassumption].
+          - intros [c4 s4] (He4 & Hk4). cbn [fst snd]. split; [eapply ext_trans; eassumption|].
+            split; [assumption|]. unfold strict in *. destruct He4 as (_ & ? & _). lia. }
+        intros [c4 s4] (He4 & Hk4 & Hs4). cbn [sres_ok fst snd] in *. split; [assumption|].
+        split; [assumption|]. left. split; [unfold TIdent, EOF; lia|]. split; assumption. }
+      destruct (is_decimal ch2) eqn:Edec.
+      { assert (ch2 <> EOF) by (intros ->; discriminate).
+        eapply sres_ok_weaken; [apply scan_number_spec; assumption|].
+        intros [[tok ch'] s'] ((He & Hk & Hst) & Htok). split; [assumption|]. split; [assumption|]. left.
+        split; [unfold TInt, TFloat, EOF in *; lia | auto]. }
+      destruct (ch2 =? EOF) eqn:Eeof.
+      { apply Z.eqb_eq in Eeof. cbn [sres_ok]. split; [apply ext_refl; assumption|]. split; [assumption|]. right. auto. }
+      apply Z.eqb_neq in Eeof.
+      destruct (ch2 =? 46) eqn:Edot.
+      { eapply sres_ok_bind; [apply (next_St s2 s2); [apply ext_refl; assumption | auto]|].
+        intros [c3 s3] (He3 & Hk3 & Hs3). cbn [fst snd] in *. destruct (is_decimal c3) eqn:Ed3.
+        - eapply sres_ok_weaken.
+          + apply scan_number_spec; [apply He3 | assumption | assumption |]. destruct He3 as (_ & _ & _ & ?). lia.
+          + intros [[tok ch'] s'] ((He & Hk & Hst) & Htok). split; [eapply ext_trans; eassumption|].
+            split; [assumption|]. left. split; [unfold TInt, TFloat, EOF in *; lia|]. split; [|assumption].
+            unfold strict in *. destruct He as (_ & ? & _). lia.
+        - cbn [sres_ok]. split; [assumption|]. split; [assumption|]. left. auto. }
+      eapply sres_ok_bind; [apply (next_St s2 s2); [apply ext_refl; assumption | auto]|].
+      intros [c3 s3] (He3 & Hk3 & Hs3). cbn [fst snd sres_ok] in *. split; [assumption|]. split; [assumption|]. left. auto. }
+    intros [[tok ch'] s'] (He' & Hk' & Hcase). cbv beta iota. cbn [sres_ok scan_post t_typ t_pos t_txt].
+    assert (Hoff : p_offset (if 0 <? s_col s2
+                             then {| p_line := s_line s2; p_column := s_col s2; p_offset := s_pos s2 - blen (s_last s2) |}
+                             else {| p_line := s_line s2 - 1; p_column := s_lastlinelen s2; p_offset := s_pos s2 - blen (s_last s2) |})
+                   = tokoff s2) by (destruct (0 <? s_col s2); reflexivity).
+    rewrite Hoff. change (tokoff (set_ch s' ch')) with (tokoff s').
+    change (s_rest (set_ch s' ch')) with (s_rest s'). change (s_ws (set_ch s' ch')) with (s_ws s').
+    pose proof (core_bounds s2 Hc2) as Hb2.
+    destruct He02 as (_ & Hm02 & Hws02 & Hl02). destruct He' as (Hc' & Hm' & Hws' & Hl').
+    split. { split; [exact Hc'|]. right. exact Hk'. }
+    split. { congruence. }
+    split.
+    { unfold tok_ok. cbn [t_typ t_pos t_txt]. split. { unfold okpos. rewrite Hoff. exact Hb2. }
+      intros Hne. destruct Hcase as [(_ & Hst & Hch2) | (Heq & _)]; [|contradiction].
+      destruct Hk2 as [(? & _) | (_ & _ & Hl2)]; [contradiction|].
+      apply firstn_nonempty; [assumption|]. unfold strict, tokoff in *. lia. }
+    split. { lia. }
+    split.
+    { intros Hne. destruct Hcase as [(_ & Hst & Hch2) | (Heq & _)]; [|contradiction].
+      destruct Hk2 as [(? & _) | (_ & _ & Hl2)]; [contradiction|]. unfold strict in Hst. lia. }
+    lia.
   Qed.
 End Inv.
